@@ -189,10 +189,15 @@ def gen_family(rng, hname, nblocks, tag0, key_choices=None, canonical_names=Fals
         # lifetimes must be declared first
         order = [s for s in order if s[0] == 'L'] + [s for s in order if s[0] != 'L']
         binds = {assoc: groups[i % len(groups)]}
-        if tr == 'D2' and rng.random() < 0.4:
+        if tr == 'D2' and rng.random() < 0.6:
             other = [a for a in TRAITS[tr] if a != assoc][0]
             binds[other] = rng.choice(GROUPS)
         bounds = [(bounded, tr, binds, rng.choice(['inline', 'where']))]
+        if len(binds) > 1 and rng.random() < 0.6:
+            # the same bound written in two pieces, each binding one associated type
+            (a1, x1), (a2, x2) = list(binds.items())[:2]
+            bounds = [(bounded, tr, {a1: x1}, rng.choice(['inline', 'where'])), (bounded, tr, {a2: x2}, rng.choice(['inline', 'where']))]
+            rng.shuffle(bounds)
         if extra and rng.random() < 0.5 and len(tyslots) > 1:
             o = '{%s}' % rng.choice([s for s in tyslots if '{%s}' % s != bounded] or tyslots)
             bounds.append((o, rng.choice(['D', 'D2']), {} if rng.random() < 0.5 else {'G': rng.choice(GROUPS)}, rng.choice(['inline', 'where'])))
@@ -456,6 +461,22 @@ def gen_case(rng, kind):
         headers = [HEADERS[h]] * len(blocks)
         probes, world = build_world_and_probes(rng, blocks, headers, unsized=True, nprobes=14, impl_rate=0.9)
         return Case(kind, 'K', '', blocks, probes, world)
+    elif kind == 'split':
+        # one bound written in two pieces in every block: the distinguishing binding and another one
+        h = rng.choice(['T', 'pair', 'vec', 'opt', 'box'])
+        self_fmt, used = HEADERS[h]
+        bounded = rng.choice(['{T0}'] + ([self_fmt] if h != 'T' else []))
+        dist, other = rng.choice([('G', 'H'), ('H', 'G')])
+        groups = rng.sample(GROUPS, rng.choice([2, 3]))
+        blocks = []
+        for i, g in enumerate(groups):
+            slots = mk_slots(rng, used)
+            order = list(slots); rng.shuffle(order)
+            pieces = [(bounded, 'D2', {dist: g}, rng.choice(['inline', 'where'])), (bounded, 'D2', {other: rng.choice(GROUPS)}, rng.choice(['inline', 'where']))]
+            if rng.random() < 0.5:
+                pieces.reverse()
+            blocks.append(Block({x: slots[x] for x in order}, None, self_fmt, pieces, 'b%d' % i))
+        headers = [HEADERS[h]] * len(blocks)
     elif kind == 'multi':
         hs = rng.choice([('vec', 'opt'), ('vec', 'pair'), ('box', 'arr', 'opt'), ('pair', 'vec', 'opt'), ('ref', 'vec')])
         blocks, headers, tag = [], [], 0
@@ -480,7 +501,7 @@ def gen_case(rng, kind):
             general = gen_family(rng, gen_h, 2, 0, key_choices=['{T0}'], extra=False)
             tr, binds = general[0].bounds[0][1], general[0].bounds[0][2]
             assoc = list(binds)[0]
-            used_groups = {list(b.bounds[0][2].values())[0] for b in general}
+            used_groups = {v for b in general for bd in b.bounds for v in bd[2].values()}
             free = [g for g in GROUPS if g not in used_groups] or GROUPS
             self_fmt, used = HEADERS[spec_h]
             slots = mk_slots(rng, used)
@@ -491,7 +512,7 @@ def gen_case(rng, kind):
             general = gen_family(rng, gen_h, 2, 0, key_choices=[key], extra=False)
             tr, binds = general[0].bounds[0][1], general[0].bounds[0][2]
             assoc = list(binds)[0]
-            used_groups = {b.bounds[0][2][assoc] for b in general}
+            used_groups = {bd[2][assoc] for b in general for bd in b.bounds if assoc in bd[2]}
             free = [g for g in GROUPS if g not in used_groups] or GROUPS
             self_fmt, used = HEADERS[spec_h]
             slots = mk_slots(rng, used)
